@@ -45,6 +45,9 @@ THEOREMS = [
     "SleapVerif.C20.preset_counterexample",
     "SleapVerif.C20.validators_reject",
     "SleapVerif.C20.rules_meaning",
+    "SleapVerif.C20.nan_rejected",
+    "SleapVerif.C20.nonfinite_rejected",
+    "SleapVerif.C20.validators_reject_nan",
     "SleapVerif.C20.oneof_rejects",
 ]
 
@@ -66,6 +69,10 @@ def tag(o):
     if isinstance(o, int):
         return ("i", int(o))
     if isinstance(o, float):
+        if o != o:
+            return ("f", "nan")           # "not a number" is an explicit value of the model
+        if o in (float("inf"), float("-inf")):
+            return ("f", "inf" if o > 0 else "-inf")
         return ("f", Fraction(repr(o)))  # exact decimal of the shortest repr: lossless both ways
     if isinstance(o, str):
         return ("s", o)
@@ -109,6 +116,8 @@ def toks(t) -> str:
     if k == "i":
         return f"i{v}"
     if k == "f":
+        if isinstance(v, str):
+            return "f" + v
         return f"f{v.numerator}" if v.denominator == 1 else f"f{v.numerator}/{v.denominator}"
     if k == "s":
         return "s" + enc(v)
@@ -142,6 +151,8 @@ def parse(ts: list, i=0):
         return ("b", t == "T"), i + 1
     if t[0] == "i":
         return ("i", int(t[1:])), i + 1
+    if t in ("fnan", "finf", "f-inf"):
+        return ("f", t[1:]), i + 1
     if t[0] == "f":
         return ("f", Fraction(t[1:])), i + 1
     if t[0] == "s":
@@ -174,6 +185,9 @@ def untag(t):
     return v
 
 
+NAN, INF = float("nan"), float("inf")
+
+
 def show(r):
     return r if r[0] == "raise" else ("ok", untag(r[1]))
 
@@ -186,6 +200,8 @@ class Tup:
 
 
 def to_json(o):
+    if isinstance(o, float) and (o != o or o in (INF, -INF)):
+        return {"__float__": repr(o)}
     if isinstance(o, tuple):
         return {"__tuple__": [to_json(x) for x in o]}
     if isinstance(o, list):
@@ -199,6 +215,8 @@ def from_json(o):
     if isinstance(o, dict):
         if set(o) == {"__tuple__"}:
             return tuple(from_json(x) for x in o["__tuple__"])
+        if set(o) == {"__float__"}:
+            return float(o["__float__"])
         return {k: from_json(v) for k, v in o.items()}
     if isinstance(o, list):
         return [from_json(x) for x in o]
@@ -262,6 +280,20 @@ class Impl:
         ba.apply_defaults()
         return dict(ba.arguments)
 
+    def case_kwargs(self, case):
+        """keyword arguments of a ctor/bctor case; `yaml` = {dotted.path: YAML literal} entries are loaded
+        with OmegaConf (the way a value reaches the classes from a config file) and put in place"""
+        kw = json.loads(json.dumps(to_json(case.get("kw", {}))))
+        kw = from_json(kw)
+        for path, lit in (case.get("yaml") or {}).items():
+            v = self.OC.to_container(self.OC.create(f"v: {lit}"))["v"]
+            d = kw
+            ks = path.split(".")
+            for k in ks[:-1]:
+                d = d.setdefault(k, {})
+            d[ks[-1]] = v
+        return kw
+
     # --- one case -> (driver lines, impl result)
     def run(self, case):
         op = case["op"]
@@ -287,6 +319,20 @@ class Impl:
         if op == "mk":
             cls = self.classes[case["cls"]]
             return [f"mk {case['cls']} {toks(tag(case['kw']))}"], self.observe(cls, **case["kw"])
+        if op == "ctor":
+            # the attrs constructor alone (validators), value given directly or read from YAML text
+            cls = self.classes[case["cls"]]
+            kw = self.case_kwargs(case)
+            r = call(cls, **kw)
+            return [f"mk {case['cls']} {toks(tag(kw))}"], (("ok", None) if r[0] == "ok" else ("raise", r[1]))
+        if op == "bctor":
+            # a builder observed at attrs level (no OmegaConf conversion): did the validators let it through?
+            fn = getattr(tr, f"get_{case['fn']}_config")
+            kw = self.case_kwargs(case)
+            full = self.full_args(fn, kw)
+            line = {"data": "data fixed", "model": "modelraw", "trainer": "trainer"}[case["fn"]]
+            r = call(fn, **kw)
+            return [f"{line} {toks(tag(full))}"], (("ok", None) if r[0] == "ok" else ("raise", r[1]))
         if op == "oneof":
             # BackboneConfig / HeadConfig with the named fields set to default sub-configs
             cls = self.classes[case["cls"]]
@@ -812,6 +858,104 @@ def invalid_cases():
                "expect": exp, "field": "ModelConfig.pre_trained_weights"}
 
 
+# ---- edge values (NaN, +-inf, bool, None, str) for every validated field -------------------------
+# what each validated field is, restated from the docs (independent of the model's rule table)
+KIND = {
+    ("PreprocessingConfig", "scale"): "floats",
+    ("IntensityConfig", "uniform_noise_min"): "lower", ("IntensityConfig", "uniform_noise_max"): "upper",
+    ("IntensityConfig", "uniform_noise_p"): "prob", ("IntensityConfig", "gaussian_noise_p"): "prob",
+    ("IntensityConfig", "contrast_min"): "lower", ("IntensityConfig", "contrast_max"): "lower",
+    ("IntensityConfig", "contrast_p"): "prob", ("IntensityConfig", "brightness_p"): "prob",
+    ("GeometricConfig", "affine_p"): "prob", ("GeometricConfig", "erase_p"): "prob", ("GeometricConfig", "mixup_p"): "prob",
+    ("SwinTConfig", "model_type"): "choice", ("SwinTSmallConfig", "model_type"): "choice",
+    ("SwinTBaseConfig", "model_type"): "choice",
+    ("OptimizerConfig", "lr"): "lower", ("StepLRConfig", "step_size"): "lower",
+    ("ReduceLROnPlateauConfig", "min_lr"): "floats",
+    ("EarlyStoppingConfig", "min_delta"): "lower", ("EarlyStoppingConfig", "patience"): "lower",
+    ("TrainerConfig", "trainer_devices"): "devices", ("TrainerConfig", "optimizer_name"): "choice",
+}
+# (python value | None, YAML literal | None, label)
+EDGE_VALUES = [(NAN, ".nan", "nan"), (INF, ".inf", "inf"), (-INF, "-.inf", "-inf"), (True, "true", "True"),
+               (False, "false", "False"), (None, "null", "None"), ("0.5", "'0.5'", "'0.5'"), ("x", "x", "'x'"),
+               ([NAN], "[.nan]", "[nan]"), ([0.5, NAN], "[0.5, .nan]", "[0.5, nan]"), ([-INF], "[-.inf]", "[-inf]"),
+               (2.0, "2.0", "2.0"), (-1.0, "-1.0", "-1.0")]
+# builder routes: (class, field) -> (builder, dotted path of the keyword that carries the value, fixed kwargs)
+_D = {"train_labels_path": "t.slp", "val_labels_path": "v.slp"}
+ROUTES = {
+    ("PreprocessingConfig", "scale"): ("data", "scale", _D),
+    **{("IntensityConfig", f): ("data", f"intensity_aug.{f}", {**_D, "use_augmentations_train": True})
+       for (c, f) in KIND if c == "IntensityConfig"},
+    **{("GeometricConfig", f): ("data", f"geometry_aug.{f}", {**_D, "use_augmentations_train": True})
+       for (c, f) in KIND if c == "GeometricConfig"},
+    ("SwinTConfig", "model_type"): ("model", "backbone_config.swint.model_type", {}),
+    ("OptimizerConfig", "lr"): ("trainer", "learning_rate", {}),
+    ("StepLRConfig", "step_size"): ("trainer", "lr_scheduler.step_lr.step_size", {}),
+    ("ReduceLROnPlateauConfig", "min_lr"): ("trainer", "lr_scheduler.reduce_lr_on_plateau.min_lr", {}),
+    ("EarlyStoppingConfig", "min_delta"): ("trainer", "early_stopping_min_delta", {}),
+    ("EarlyStoppingConfig", "patience"): ("trainer", "early_stopping_patience", {}),
+    ("TrainerConfig", "trainer_devices"): ("trainer", "trainer_num_devices", {}),
+    ("TrainerConfig", "optimizer_name"): ("trainer", "optimizer", {}),
+}
+
+
+def edge_expect(kind, v):
+    """The property on one value of a validated field: 'reject' (must raise), or None where the property is
+    silent (e.g. +inf for a one-sided ">= 0" rule, True == 1 for a probability).  Not derived from the model:
+    out-of-range or non-finite probability must raise; NaN must raise everywhere; a value of the wrong kind
+    (None, text, list for a number) must raise."""
+    isnum = isinstance(v, (int, float)) and not isinstance(v, bool)
+    has_nan = (isinstance(v, float) and v != v) or (isinstance(v, list) and any(isinstance(x, float) and x != x for x in v))
+    if kind == "choice":
+        return "reject"                       # none of the edge values is one of the allowed names
+    if has_nan:
+        return "reject"
+    if kind == "prob":
+        if isnum:
+            return "reject" if not (0.0 <= v <= 1.0) else None
+        return None if isinstance(v, bool) else "reject"
+    if kind in ("lower", "upper"):
+        if isnum:
+            if v in (INF, -INF):
+                return "reject" if (v < 0) == (kind == "lower") else None
+            return "reject" if (kind == "lower" and v < 0) or (kind == "upper" and v > 1) else None
+        return None if isinstance(v, bool) else "reject"
+    if kind == "floats":
+        if isinstance(v, float):
+            return "reject" if v < 0 else None
+        if isinstance(v, list) and v and all(isinstance(x, float) for x in v):
+            return "reject" if any(x < 0 for x in v) else None
+        return "reject"                       # bool / None / text are not floats
+    if kind == "devices":
+        if isinstance(v, bool):
+            return None
+        if isinstance(v, int):
+            return "reject" if v < 0 else None
+        return "reject"                       # floats (incl. non-finite), None, text other than "auto"
+    return None
+
+
+def put(d, path, v):
+    ks = path.split(".")
+    for k in ks[:-1]:
+        d = d.setdefault(k, {})
+    d[ks[-1]] = v
+
+
+def edge_cases():
+    for (cls, f), kind in KIND.items():
+        for v, lit, label in EDGE_VALUES:
+            exp = edge_expect(kind, v)
+            base = {"expect": exp, "field": f"{cls}.{f}", "shown": label} if exp else {"field": f"{cls}.{f}", "shown": label}
+            yield {"op": "ctor", "cls": cls, "kw": {f: v}, **base}                       # constructor path
+            yield {"op": "ctor", "cls": cls, "kw": {}, "yaml": {f: lit}, **base}         # value loaded from YAML
+            if (cls, f) in ROUTES:
+                fn, path, fixed = ROUTES[(cls, f)]
+                kw = json.loads(json.dumps(fixed))
+                put(kw, path, v)
+                yield {"op": "bctor", "fn": fn, "kw": kw, **base}                          # builder (dict-form) path
+                yield {"op": "bctor", "fn": fn, "kw": json.loads(json.dumps(fixed)), "yaml": {path: lit}, **base}
+
+
 def rand_tree(rng, depth=0):
     if depth >= 3 or rng.random() < 0.35:
         return rng.choice([None, True, 0, 1, 2.5, 0.1, "x", "", "a b", [1, 2], [], [0.5, "y"], [[1, "a"], []]])
@@ -901,6 +1045,7 @@ def build_cases(chk: Check, impl: Impl):
         cases.append({"op": "trainer", "kw": gen_kw(rng, TRAINER_GEN)})
     # --- validators
     cases += list(invalid_cases())
+    cases += list(edge_cases())
     # --- merge on arbitrary trees (OmegaConf.merge itself)
     cases += [{"op": "merge", "s": {"a": 1, "b": {"c": "x"}}, "c": {"b": {"c": "y", "d": None}, "e": [1, 0.5]}},
               {"op": "merge", "s": {"a": {"x": 1}}, "c": {"a": None}}, {"op": "merge", "s": {"a": None}, "c": {"a": {"x": 1}}},
@@ -972,6 +1117,8 @@ def classify(case):
         return [f"{op}:" + ("str" if isinstance(a, str) else "dict" if isinstance(a, dict) else "other")]
     if op == "verify":
         return ["verify:" + case["kind"]]
+    if op in ("ctor", "bctor"):
+        return [f"edge:{op}:{'yaml' if case.get('yaml') else 'py'}:{case.get('expect') or 'no-expectation'}"]
     if op in ("mk", "oneof") or "expect" in case:
         return [f"validator:{case.get('expect', '-')}"]
     return [op]
@@ -985,6 +1132,8 @@ def check_case(chk: Check, impl: Impl, case, lines, ires, model_lines):
     key = json.dumps(jcase, sort_keys=True, default=str)
     chk.case(key, {"case": jcase, "impl": show(ires) if op != "verify" else ires[0], "model": lines[0][:200]},
              tags=classify(case) + [f"result:{ires[0]}" + (":" + ires[1] if ires[0] == "raise" else "")])
+    if op in ("ctor", "bctor"):
+        mres = [(m[0], None) if m[0] == "ok" else m for m in mres]   # status / exception class only
     agree = ires == mres[0]
     # ---- the property itself, on the implementation (independent of the model)
     why, sigs = None, []
@@ -1012,7 +1161,7 @@ def check_case(chk: Check, impl: Impl, case, lines, ires, model_lines):
                 sigs = ["preset_class_not_subclass"]
     elif "expect" in case:
         if case["expect"] == "reject" and ires[0] == "ok":
-            why = f"invalid value accepted for {case['field']}"
+            why = f"invalid value accepted for {case['field']}" + (f" = {case['shown']}" if "shown" in case else "")
         if case["expect"] == "accept" and ires[0] == "raise":
             why = f"valid value rejected for {case['field']}: {ires[1]}"
     elif op == "verify":
